@@ -16,7 +16,7 @@ TRIGGERS = [":keyword", ":param **kwargs:", "KW!"]
 STRIPS = ["", "^_[a-zA-Z]*_", "^_", "x", r"\W+", "^[^_]*_"]   # the last two can match across a separator if parameters were joined
 DOCS = [None, ["Plain text only."], ["Takes :keyword foo: a thing."], ["Doc.", ":param **kwargs: more"],
         ["Shout KW! here"], ["near miss :Keyword and kw! and :param *kwargs:"]]
-PARAMS = [[], ["_pfx_name"], ['"q p"', "${ref}", "[[br x]]"], ["x_arg", "_x", "plain"]]
+PARAMS = [[], ["_pfx_name"], ['"q  p\tt"', "${ref}", "[[br x]]"], ["x_arg", "_x", "plain"]]   # two spaces and a tab inside quotes
 
 
 def enabled(events, maxnest):
@@ -35,6 +35,9 @@ def enabled(events, maxnest):
                 if DOCS[d]:
                     ev["doctext"] = DOCS[d]
                 out.append(ev)
+        # field-for-field equal definitions (the 'define it one way or the other' idiom)
+        out += [{"k": "function", "doc": 1, "name": "twin_fn", "doctext": ["Twin."], "params": ["t"]},
+                {"k": "macro", "doc": 0, "name": "twin_mac", "params": ["t"]}]
         out += [{"k": "if", "doc": 0}, {"k": "foreach", "doc": 0}, {"k": "cpp_class", "doc": 1},
                 {"k": "ct_add_test", "doc": 0}]
         if inner == "cpp_class":
